@@ -2,7 +2,8 @@
    Print Assumptions.  Model = Model/Kalman.v (the batched code over canonical rationals),
    specification = Spec/Kalman.v (per-feature textbook step). *)
 From Coq Require Import ZArith List Bool QArith Qcanon.
-From Centro Require Import Gen.ConstsC09 Model.Kalman Spec.Kalman Proofs.KalmanHist Proofs.KalmanAlg Proofs.KalmanGain Proofs.KalmanRefine.
+From Centro Require Import Gen.ConstsC09 Model.Kalman Spec.Kalman Proofs.KalmanHist Proofs.KalmanAlg Proofs.KalmanGain Proofs.KalmanRefine
+  Proofs.KalmanArith Proofs.KalmanInv34 Proofs.KalmanParity Proofs.KalmanAssoc.
 Import ListNotations.
 Open Scope nat_scope.
 
@@ -129,3 +130,69 @@ Theorem C09_new_feature_velocity : forall z0 z1 : Qc,
    [1%Qc; 1%Qc; 1%Qc; 1%Qc], []).
 Proof. exact new_feature_velocity. Qed.
 Print Assumptions C09_new_feature_velocity.
+
+(* ---------------------------------------------------------------------------------- round 2 *)
+
+(* FULL.  The shortcut operations the executable model uses are the field operations of Qc. *)
+Theorem C09_shortcut_ops : forall x y : Qc,
+  qmul x y = (x * y)%Qc /\ qadd x y = (x + y)%Qc /\ qsub x y = (x - y)%Qc.
+Proof. exact (fun x y => conj (qmul_eq x y) (conj (qadd_eq x y) (qsub_eq x y))). Qed.
+Print Assumptions C09_shortcut_ops.
+
+(* PARTIAL (sizes 1..4 of all n; the permutation-expansion determinant, cofactors and adjugate of
+   inv_n / det_n / cofactor_n as written).  Missing for general n: the Laplace expansion along an
+   arbitrary row and the alternating property (equal rows give determinant 0) of the
+   permutation-expansion determinant. *)
+Theorem C09_inv_n_correct_partial : forall (A : mat) (n : nat), 1 <= n <= 4 -> length A = n ->
+  Forall (fun row => length row = n) A -> det1 A <> 0%Qc ->
+  mmul A (inv1 A) = ident n /\ mmul (inv1 A) A = ident n.
+Proof. exact inv_n_correct_upto4. Qed.
+Print Assumptions C09_inv_n_correct_partial.
+
+(* FULL, all shapes.  The batched product of dot_n is associative and has the unit. *)
+Theorem C09_mmul_assoc : forall (M X S : mat) (m : nat), X <> [] ->
+  Forall (fun r => length r = length X) M -> Forall (fun r => length r = m) X ->
+  mmul (mmul M X) S = mmul M (mmul X S).
+Proof. exact mmul_assoc. Qed.
+Print Assumptions C09_mmul_assoc.
+
+Theorem C09_mmul_ident_r : forall (M : mat) (n : nat), Forall (fun r => length r = n) M -> mmul M (ident n) = M.
+Proof. exact mmul_ident_r. Qed.
+Print Assumptions C09_mmul_ident_r.
+
+(* FULL, every obs_len.  The gain solves K S = P H^T whenever inv_n returns a left inverse of S. *)
+Theorem C09_gain_equation_n : forall (H Pp r : mat) (n : nat),
+  let S := innovation_cov H Pp r in
+  S <> [] -> length S = n -> Forall (fun row => length row = n) (inv1 S) ->
+  mmul (inv1 S) S = ident n ->
+  Forall (fun row => length row = n) (mmul Pp (mtrans H)) ->
+  mmul (gain H Pp r) S = mmul Pp (mtrans H).
+Proof. exact gain_equation_n. Qed.
+Print Assumptions C09_gain_equation_n.
+
+(* FULL for obs_len 1..4, from det S <> 0 alone. *)
+Theorem C09_gain_equation_upto4 : forall (H Pp r : mat) (n : nat),
+  let S := innovation_cov H Pp r in
+  1 <= n <= 4 -> length S = n -> Forall (fun row => length row = n) S -> det1 S <> 0%Qc ->
+  Forall (fun row => length row = n) (mmul Pp (mtrans H)) ->
+  mmul (gain H Pp r) S = mmul Pp (mtrans H).
+Proof. exact gain_equation_upto4. Qed.
+Print Assumptions C09_gain_equation_upto4.
+
+(* FULL.  parity (inversion count) is the sign of the permutation: +1 on the identity and flipped
+   by every adjacent transposition (the two facts that determine the sign). *)
+Theorem C09_parity_identity : forall n : nat, parity (seq 0 n) = 1%Qc.
+Proof. exact parity_identity. Qed.
+Print Assumptions C09_parity_identity.
+
+Theorem C09_parity_adjacent_swap : forall (l1 : list nat) (a b : nat) (l2 : list nat), a <> b ->
+  parity (l1 ++ b :: a :: l2) = (- parity (l1 ++ a :: b :: l2))%Qc.
+Proof. exact parity_adjacent_swap. Qed.
+Print Assumptions C09_parity_adjacent_swap.
+
+(* FINITE (n <= 5, kernel sweep over all 154 permutations).  The cycle-counting algorithm that
+   filter.parity is written as equals the inversion-count sign used by the model's det_n. *)
+Theorem C09_parity_cycles_inversions : forall (n : nat) (p : list nat), n <= 5 ->
+  In p (permutations (seq 0 n)) -> parity_cycles p = parity p.
+Proof. exact parity_cycles_inversions. Qed.
+Print Assumptions C09_parity_cycles_inversions.
